@@ -26,6 +26,12 @@ def corpus(seed, n=24):
             bp['tps'] = r.choice([1, 1000, 10 ** 6, 10 ** 9]); bp['max'] = r.choice([2, 5, 10000])
             bp['qrh'], bp['sigh'], bp['rrh'], bp['oth'] = gen.ALL_QRH, gen.ALL_SIGH, 3, 3
         pre['major'], pre['minor'] = 1, 0
+        if i == 1:
+            pre['bps'][0]['opcodes'] = []          # empty lists are valid and must render
+        if i == 2:
+            pre['bps'][-1]['rrtypes'] = []
+        if i == 4:
+            pre['bps'][0]['opcodes'], pre['bps'][0]['rrtypes'] = [], []
         cases.append(gen.gen_history(r, 'k%03d' % i, preamble=pre, nops=r.choice([4, 10, 30]), comp='none', kind='name', rotations=False, addbp=False,
                                      weights=dict(qr=50, mm=20, aec=15, dblock=6)))
     er = ExportRun(PROP, cases, 'c03corpus', need_lib_read=False)
@@ -151,11 +157,17 @@ def run(tier, seed):
 
         targeted = [j for j, (k, p, ln) in enumerate(inputs) if k.split('+')[0] in ('time_huge', 'field_boundary', 'tps_zero', 'uint_boundary')]
 
+        huge_times = [j for j, (k, p, ln) in enumerate(inputs) if k.split('+')[0] == 'time_huge'][:150 if tier == 'quick' else 1500]
+
         def tool_job(i):
             r = gen.seeded(seed, 'C03t', i)
             tool = TOOLS[i % len(TOOLS)]
             # half of the runs on inputs with extreme times / indices / tick rates (what the tools re-encode or resolve)
             k, p, ln = inputs[r.choice(targeted)] if (targeted and i % 2) else inputs[r.randrange(len(inputs))]
+            if i >= n_tool:
+                # every input with extreme block times goes through cdns-merge once (it re-computes all time offsets when it writes)
+                tool = 'cdns-merge'
+                k, p, ln = inputs[huge_times[i - n_tool]]
             if tool == 'cdns-merge':
                 k2, p2, _ = inputs[r.randrange(len(inputs))]
                 outp = os.path.join(wd, 'merge_%d.out' % i)
@@ -173,7 +185,7 @@ def run(tier, seed):
             rc, out, err, to = runner.run_limited(os.path.join(libd, tool), args, timeout=600, cpu=30, fsize=32 << 20)
             return tool, k, p, rc, err, to
         with cf.ThreadPoolExecutor(max_workers=runner.NCPU) as ex:
-            for tool, k, p, rc, err, to in ex.map(tool_job, range(n_tool)):
+            for tool, k, p, rc, err, to in ex.map(tool_job, range(n_tool + len(huge_times))):
                 tool_runs += 1
                 if to:
                     vs.append(Violation(PROP, '%s:hang:%s' % (PROP, tool), '%s did not terminate' % tool, {'mutation': k, 'input_hex': open(p, 'rb').read()[:3000].hex()}))
